@@ -241,17 +241,20 @@ def run(repo, rep):
     for m, fn, path in gens:
         f = m.func(fn)
         site = f"{path}:{fn}"
-        ix = [s for s in ast.walk(f) if isinstance(s, ast.Assign) and norm(s.targets[0]) == "ix"]
+        # the index range is whatever local is bound to `range(256) if .. else range(-128, 128)` (names are not fixed)
+        ix = [s for s in ast.walk(f) if isinstance(s, ast.Assign) and isinstance(s.targets[0], ast.Name) and isinstance(s.value, ast.IfExp) and norm(s.value.body).startswith("range(")]
+        ixn = ix[0].targets[0].id if len(ix) == 1 else "ix"
         ok = len(ix) == 1 and isinstance(ix[0].value, ast.IfExp) and norm(ix[0].value.body) == "range(256)" and norm(ix[0].value.orelse) == "range(-128, 128)" and "DataType.uint8" in norm(ix[0].value.test) \
             and "==" in norm(ix[0].value.test)
         rep.check(ok, "C19-a", site, "index range is range(256) for uint8 inputs, range(-128, 128) otherwise", norm(ix[0].value) if ix else "missing")
-        loops = [l for l in ast.walk(f) if isinstance(l, ast.For) and norm(l.iter) == "ix"]
+        loops = [l for l in ast.walk(f) if isinstance(l, ast.For) and norm(l.iter) == ixn]
         if len(loops) != 1:
             rep.bad("C19-a", site, "table loop `for x in ix`", f"{len(loops)} loops")
             continue
         L = loops[0]
         c = cfg_of(f)
-        app = [x for x in calls_in(L, "values.append")]
+        lists_ = {s_.targets[0].id for s_ in ast.walk(f) if isinstance(s_, ast.Assign) and isinstance(s_.targets[0], ast.Name) and norm(s_.value) == "[]"}
+        app = [x for x in ast.walk(L) if isinstance(x, ast.Call) and isinstance(x.func, ast.Attribute) and x.func.attr == "append" and isinstance(x.func.value, ast.Name) and x.func.value.id in lists_]
         head = c.node_of(L)
         ok = len(app) == 1 and not any(isinstance(s, (ast.Continue, ast.Break)) for s in ast.walk(L))
         if ok:
@@ -260,19 +263,23 @@ def run(repo, rep):
             ok = all(not c.path_avoiding(b, head, [an]) for b, lab in c.succ[head] if lab is True)
         rep.check(ok, "C19-a", site, "exactly one values.append per input code (no skipped or duplicated code)", "append missing on a path, or break / continue in the table loop")
         # b: clamp and rounding
-        clamp = [s for s in L.body if isinstance(s, ast.Assign) and norm(s.targets[0]) == "lut_result" and call_name(s.value) == "min"]
+        # names are taken from the structure: the stored value is what is appended, the bounds are the locals bound to min / max of the index range
+        vname = norm(app[0].args[0]) if app and app[0].args and isinstance(app[0].args[0], ast.Name) else "lut_result"
+        bounds = {norm(s_.value).split("(")[0]: norm(s_.targets[0]) for s_ in ast.walk(f) if isinstance(s_, ast.Assign) and isinstance(s_.targets[0], ast.Name) and norm(s_.value) in (f"min({ixn})", f"max({ixn})")}
+        qmin, qmax = bounds.get("min", "quantized_min"), bounds.get("max", "quantized_max")
+        clamp = [s for s in L.body if isinstance(s, ast.Assign) and norm(s.targets[0]) == vname and call_name(s.value) == "min"]
         okc = False
         if clamp:
             v = norm(clamp[-1].value)
-            okc = v in ("min(quantized_max, max(quantized_min, lut_result))", "min(max(lut_result, quantized_min), quantized_max)", "min(max(quantized_min, lut_result), quantized_max)")
-            okc = okc and c.dominates(c.node_of(clamp[-1]), c.node_of(app[0])) and norm(app[0].args[0]) == "lut_result"
-            later = [s for s in L.body if isinstance(s, ast.Assign) and norm(s.targets[0]) == "lut_result" and s.lineno > clamp[-1].lineno]
+            okc = v in (f"min({qmax}, max({qmin}, {vname}))", f"min(max({vname}, {qmin}), {qmax})", f"min(max({qmin}, {vname}), {qmax})")
+            okc = okc and c.dominates(c.node_of(clamp[-1]), c.node_of(app[0])) and norm(app[0].args[0]) == vname
+            later = [s for s in L.body if isinstance(s, ast.Assign) and norm(s.targets[0]) == vname and s.lineno > clamp[-1].lineno]
             okc = okc and not later
         rep.check(okc, "C19-b", site, "the stored value is min(quantized_max, max(quantized_min, .)) and nothing modifies it afterwards", norm(clamp[-1].value) if clamp else "no clamp")
-        qm = {norm(s.targets[0]): norm(s.value) for s in ast.walk(f) if isinstance(s, ast.Assign) and norm(s.targets[0]) in ("quantized_min", "quantized_max")}
-        rep.check(qm == {"quantized_min": "min(ix)", "quantized_max": "max(ix)"}, "C19-b", site, "clamp bounds are the ends of the same index range", str(qm))
+        qm = {norm(s.targets[0]): norm(s.value) for s in ast.walk(f) if isinstance(s, ast.Assign) and norm(s.targets[0]) in (qmin, qmax)}
+        rep.check(qm == {qmin: f"min({ixn})", qmax: f"max({ixn})"}, "C19-b", site, "clamp bounds are the ends of the same index range", str(qm))
         # rounding: the float result goes through round_away_zero, or the computation is integer fixed point (fp_math)
-        defs = [s for s in L.body if isinstance(s, ast.Assign) and norm(s.targets[0]) == "lut_result"] + [s for s in ast.walk(L) if isinstance(s, ast.Assign) and norm(s.targets[0]) == "lut_result"]
+        defs = [s for s in L.body if isinstance(s, ast.Assign) and norm(s.targets[0]) == vname] + [s for s in ast.walk(L) if isinstance(s, ast.Assign) and norm(s.targets[0]) == vname]
         first = sorted(set(defs), key=lambda s: s.lineno)
         srcs = [s for s in first if s not in clamp]
         okr = bool(srcs) and all(any(call_name(x) in ("round_away_zero",) or (call_name(x) or "").startswith("fp_math.") for x in calls_in(s.value)) for s in srcs)
